@@ -184,7 +184,25 @@ pub fn spec_strategy(o: GenOpts) -> impl Strategy<Value = Spec> {
         prop_oneof![1 => Just(0u64), 2 => any::<u64>()],
         prop_oneof![1 => Just(0u64), 4 => any::<u64>()],
     )
-        .prop_map(|(mut names, lines, header, flip_seed, render_seed)| {
+        .prop_map(move |(mut names, lines, header, flip_seed, render_seed)| {
+            // prefix-related names (LOOP / LOOP2 / lo): a lookup that matches prefixes or compares only
+            // part of a name must not go unnoticed
+            let mut c = Choice::new(flip_seed ^ 0x5EED);
+            let n0 = names.len();
+            for i in 0..n0 {
+                if names.len() < o.max_names && c.chance(30) {
+                    let derived = match c.below(3) {
+                        0 => format!("{}{}", names[i], c.pick(&["2", "_", "x", "0", "A"][..])),
+                        1 => format!("{}{}", names[i], names[i]),
+                        _ => names[i].chars().take(1 + c.below(names[i].len().max(1))).collect(),
+                    };
+                    let l = derived.to_ascii_lowercase();
+                    if !(l.starts_with('r') || l.starts_with("pc") || l.starts_with("sp")) && !derived.is_empty() {
+                        let pos = c.below(names.len() + 1);
+                        names.insert(pos, derived);
+                    }
+                }
+            }
             // distinct case-insensitively
             let mut seen: Vec<String> = vec![];
             names.retain(|n| {
